@@ -187,6 +187,42 @@ CHECKS = {
         note="Faults are at libc call granularity. Cases whose fault did not fire (the call sequence varies with the schedule for "
              "hard-linked files) are inconclusive and reported as such. Trusted base as for C03.",
         design="4/C15"),
+    "C06": dict(
+        category="exploration",
+        technique="runtime monitoring: real `group` runs vs the documented replica-counting rule; metamorphic re-spelling of the roots",
+        text="Trees with hard links and file symlinks inside and across 1..4 roots are grouped under every combination of "
+             "--rf-over k / --rf-under k / --unique with -H, --isolate, -S and a transform; the reported groups must equal the "
+             "documented replica rule applied to the byte partition (README 'Handling links'; its 4-hard-link table is case 0). "
+             "Each tree is grouped again with the roots spelled as ./x, x/, y/../x, through a directory symlink, absolute, and "
+             "from another working directory with --base-dir: every spelling must give the same groups.",
+        note=COMMON_NOTE + "Overlapping roots under --isolate are undocumented and not generated; -H together with -S is excluded.",
+        design="4/C06"),
+    "C13": dict(
+        category="exploration",
+        technique="runtime monitoring: metamorphic equality of report bodies across schedules/settings, hang watchdog with quiescence test, ThreadSanitizer and AddressSanitizer runs",
+        text="For each generated tree (ext4/tmpfs, hard links, sizes around all stage thresholds) the JSON body of a base run "
+             "is compared with runs under: repetition, 12 --threads specifications incl. single-thread pools, permuted roots, "
+             "--stdin, CPU affinity of 1 and 2 cores, and seeded jitter injected by hook H3 inside the hashing tasks and before "
+             "the result channel (body must be identical); 7 hash functions, --max-prefix-size/--max-suffix-size, pinned disk "
+             "kind, cache cold/warm (partition must be identical). The number of distinct hash-completion orders observed per "
+             "tree is measured from the event hook. A run that exceeds a generous watchdog is a violation only if the process is "
+             "provably quiescent (all threads asleep, no CPU progress, no children; gdb backtrace recorded), otherwise "
+             "inconclusive. Thorough: 40+40 workloads on -Zsanitizer=thread (build-std) and -Zsanitizer=address builds; a report "
+             "whose racing/faulting access is in fclones' own code is a violation, dependency-only reports are counted.",
+        note=COMMON_NOTE + "TSan cannot model crossbeam's fence-based code (suppressed) and reports frees inside sled's own Arc; "
+             "those are counted as dependency-only noise. A clean sanitizer run is 'no report on these executions', not memory safety.",
+        design="4/C13"),
+    "C14": dict(
+        category="exploration",
+        technique="runtime monitoring: four independent report parsers, statistics recomputed from the body, metamorphic body equality",
+        text="Link-rich multi-root trees with hostile names are grouped with random replication filters, --isolate, -H, -S and a "
+             "transform in all four formats and with -o; independent parsers check that header/JSON statistics equal the values "
+             "recomputed from the body (documented definitions of redundant/missing), each group header count equals its path "
+             "lines, groups are in non-increasing size, paths are absolute, --isolate keeps the paths of one root contiguous and "
+             "roots in the given order, text/JSON/CSV/fdupes list the same groups, -o equals stdout, and the body does not change "
+             "with thread settings, root order (without --isolate) or file creation order.",
+        note=COMMON_NOTE,
+        design="4/C14"),
 }
 
 NOT_YET = {}
